@@ -1,106 +1,21 @@
 #!/venv/bin/python
 """Robustness sweep: behaviour-preserving renames of locals in the functions a property's rules analyse.
 
-usage: tools/rename_robustness.py C01 [C02 ...]
-For every function recorded in ctx.functions_analysed and every plain local of it, the local is renamed (all Name
-occurrences inside that function, nested scopes included unless they rebind it) through the in-memory overlay and
-the property's quick rules are re-run.  Outcomes: ok (exit 0), alarm (a VIOLATION: false alarm), error (analysis
-error: fail-closed but noisy).  Prints one line per non-ok variant and a summary."""
-import ast
-import importlib
+usage: tools/rename_robustness.py C01 [C02 ...]     (one variant per local + one renaming all locals of a function)
+Outcomes: ok (silent), alarm (a VIOLATION: false alarm), error (analysis error: fail-closed but noisy)."""
 import os
 import sys
-from concurrent.futures import ProcessPoolExecutor
 
 sys.path.insert(0, os.path.dirname(os.path.dirname(os.path.abspath(__file__))))
-from xsa.index import AnalysisError, Index          # noqa: E402
-from xsa.report import collect                       # noqa: E402
-
-TYPED = {'C05', 'C09', 'C10', 'C18'}
-
-
-def locals_of(fnode):
-    params = {a.arg for a in fnode.args.posonlyargs + fnode.args.args + fnode.args.kwonlyargs}
-    if fnode.args.vararg:
-        params.add(fnode.args.vararg.arg)
-    if fnode.args.kwarg:
-        params.add(fnode.args.kwarg.arg)
-    bound = set()
-    for n in ast.walk(fnode):
-        if isinstance(n, ast.Name) and isinstance(n.ctx, ast.Store):
-            bound.add(n.id)
-        elif isinstance(n, ast.ExceptHandler) and n.name:
-            pass   # `except … as err` – renaming needs the handler too: skipped
-        elif isinstance(n, (ast.Global, ast.Nonlocal)):
-            params.update(n.names)
-    handler_names = {n.name for n in ast.walk(fnode) if isinstance(n, ast.ExceptHandler) and n.name}
-    return sorted(bound - params - handler_names - {'_'})
-
-
-def rename(src: str, fnode, name: str, new: str) -> str:
-    lines = src.split('\n')
-    edits = []
-    for n in ast.walk(fnode):
-        if isinstance(n, ast.Name) and n.id == name:
-            edits.append((n.lineno, n.col_offset, n.end_col_offset))
-        elif isinstance(n, ast.MatchAs) and n.name == name:
-            return src   # pattern capture: skip
-    for ln, c0, c1 in sorted(set(edits), reverse=True):
-        line = lines[ln - 1]
-        b = line.encode('utf-8')
-        if b[c0:c1].decode('utf-8') != name:
-            return src
-        lines[ln - 1] = (b[:c0] + new.encode() + b[c1:]).decode('utf-8')
-    return '\n'.join(lines)
-
-
-def run_one(args):
-    prop, rel, qual, name = args
-    mod = importlib.import_module(f'xsa.rules.{prop.lower()}')
-    idx0 = Index()
-    f = idx0.functions[qual]
-    src = f.module.source
-    new = rename(src, f.node, name, name + '_rn')
-    if new == src:
-        return (qual, name, 'skip', '')
-    try:
-        ast.parse(new)
-    except SyntaxError:
-        return (qual, name, 'skip', 'syntax')
-    try:
-        idx = Index(overlay={rel: new})
-        ctx, viol, known = collect(prop, list(mod.RULES), 'quick', idx)
-    except AnalysisError as e:
-        return (qual, name, 'error', str(e)[:160])
-    except Exception as e:
-        return (qual, name, 'error', f'internal {type(e).__name__}: {e}'[:160])
-    if viol:
-        return (qual, name, 'alarm', f'{viol[0].rule} {viol[0].instance[:110]}')
-    return (qual, name, 'ok', '')
+from xsa.robust import TYPED, sweep          # noqa: E402
 
 
 def main():
     for prop in sys.argv[1:]:
-        mod = importlib.import_module(f'xsa.rules.{prop.lower()}')
-        idx = Index()
-        ctx, viol, known = collect(prop, list(mod.RULES), 'quick', idx)
-        jobs = []
-        for q in sorted(ctx.functions_analysed):
-            f = idx.functions.get(q)
-            if f is None or isinstance(f.node, ast.Lambda):
-                continue
-            for name in locals_of(f.node):
-                jobs.append((prop, f.module.relpath, q, name))
-        if prop in TYPED:
-            print(f'{prop}: typed rules (mypy per variant) — sweep limited to 24 variants')
-            jobs = jobs[:24]
-        res = []
-        with ProcessPoolExecutor(max_workers=14) as ex:
-            for r in ex.map(run_one, jobs, chunksize=4):
-                res.append(r)
-        bad = [r for r in res if r[2] in ('alarm', 'error')]
-        for q, n, o, d in bad:
-            print(f'  {prop} {o.upper():6} {q.split(".", 2)[-1]}::{n}  {d}')
+        res = sweep(prop, cap=24 if prop in TYPED else 0)
+        for q, n, o, d in res:
+            if o in ('alarm', 'error'):
+                print(f'  {prop} {o.upper():6} {q.split(".", 2)[-1]}::{n}  {d}')
         print(f'{prop}: {len(res)} renames: ok={sum(1 for r in res if r[2] == "ok")} alarm={sum(1 for r in res if r[2] == "alarm")} '
               f'error={sum(1 for r in res if r[2] == "error")} skip={sum(1 for r in res if r[2] == "skip")}', flush=True)
 
